@@ -79,14 +79,68 @@ inductive SetEvent where
   | statusUpdate (name : String) (res : Option ApiErr) (revision : Nat) (conds : List Cond) (controllerOf : List CRef)
   deriving Repr, Inhabited
 
+/-- Third-party operations on an ObjectSet (users, the ObjectDeployment controller, the API's
+deletion machinery). -/
+inductive SetEnvOp where
+  | lifecycle (name : String) (l : Lifecycle)     -- spec.lifecycleState edit
+  | touch (name : String)                         -- any other spec edit (generation bump)
+  | delete (name : String) (orphan : Bool)        -- delete request (orphan propagation adds the finalizer)
+  | editPayload (name : String) (phase obj : Nat) (v : String)
+  deriving Repr, Inhabited
+
 structure Sys where
   w : World
   sets : String → Option OSet      -- ObjectSets of one namespace (or cluster scope) by name
   setEvents : List SetEvent
   freed : List String              -- owners whose dynamic-cache watches were freed (`Free`)
+  setWrites : Nat                  -- writes on ObjectSets issued so far in this pass
+  setEnv : List (Nat × SetEnvOp)   -- third-party op scheduled right before ObjectSet write number n
 
 def Sys.setSet (s : Sys) (name : String) (o : Option OSet) : Sys :=
   { s with sets := fun n => if n = name then o else s.sets n }
+
+/-- store an edited ObjectSet as a third party: bump rv (and generation for spec edits). -/
+def Sys.thirdPartyStore (s : Sys) (cur next : OSet) (specEdit : Bool) : Sys :=
+  if next = cur then s
+  else
+    let rv := s.w.store.nextRV
+    let s := { s with w := { s.w with store := { s.w.store with nextRV := rv + 1 } } }
+    s.setSet cur.name (some { next with rv := rv, gen := if specEdit then cur.gen + 1 else cur.gen })
+
+def setAt {α : Type} (l : List α) (i : Nat) (f : α → α) : List α :=
+  l.zipIdx.map fun (x, j) => if j = i then f x else x
+
+def Sys.applySetEnv (s : Sys) : SetEnvOp → Sys
+  | .lifecycle n l => match s.sets n with
+    | some c => s.thirdPartyStore c { c with lifecycle := l } true
+    | none => s
+  | .touch n => match s.sets n with
+    | some c =>
+      let rv := s.w.store.nextRV
+      let s := { s with w := { s.w with store := { s.w.store with nextRV := rv + 1 } } }
+      s.setSet n (some { c with rv := rv, gen := c.gen + 1 })
+    | none => s
+  | .delete n orphan => match s.sets n with
+    | some c =>
+      let s := if orphan then s.thirdPartyStore c { c with finOrphan := true } false else s
+      match s.sets n with
+      | some c =>
+        if c.finCached || c.finOrphan then
+          if c.deleting then s else s.thirdPartyStore c { c with deleting := true } false
+        else s.setSet n none
+      | none => s
+    | none => s
+  | .editPayload n ph ob v => match s.sets n with
+    | some c =>
+      let phases := setAt c.phases ph fun p => { p with objs := setAt p.objs ob fun o => { o with payload := v } }
+      s.thirdPartyStore c { c with phases := phases } true
+    | none => s
+
+/-- Run the third-party operations scheduled before the next write on an ObjectSet. -/
+def Sys.beforeSetWrite (s : Sys) : Sys :=
+  let due := s.setEnv.filter (·.1 = s.setWrites)
+  let s := due.foldl (fun s e => s.applySetEnv e.2) s
+  { s with setWrites := s.setWrites + 1 }
 
 /-- fresh resourceVersion from the store-wide counter. -/
 def Sys.bumpRV (s : Sys) : Sys × Nat :=
@@ -97,6 +151,7 @@ def Sys.bumpRV (s : Sys) : Sys × Nat :=
 `f` computes the new stored object from the CURRENT stored one. Removing the last finalizer of a
 deleting ObjectSet removes it. Returns the new in-memory copy. -/
 def Sys.lockedWrite (s : Sys) (mem : OSet) (f : OSet → OSet) : Sys × Except ApiErr OSet :=
+  let s := s.beforeSetWrite
   match s.sets mem.name with
   | none => (s, .error .notFound)
   | some cur =>
